@@ -74,3 +74,93 @@ def second_opinion(constraints, timeout_s):
     sv.set("timeout", int(timeout_s * 1000))
     sv.add(*constraints)
     return str(sv.check())
+
+
+def decide_many(constraints, queries, timeout_s, want_names=None, tag="q", jobs=4):
+    """One bit-blasting for several queries: each query formula is bound to a selector atom; the CNF is
+    produced once and kissat runs once per query with the selector asserted as a unit clause.
+    queries: list of (name, formula).  -> dict name -> (verdict, true atom names, stats)"""
+    from concurrent.futures import ThreadPoolExecutor
+    t0 = time.time()
+    g = z3.Goal()
+    g.add(*constraints)
+    sels = {}
+    for i, (name, f) in enumerate(queries):
+        s = z3.Bool("qsel!%d" % i)
+        sels[name] = "qsel!%d" % i
+        g.add(s == f)
+    r = z3.Then(*TACTIC)(g)
+    if len(r) != 1:
+        raise Inconclusive("bit-blasting produced %d subgoals" % len(r))
+    sub = r[0]
+    if sub.inconsistent():
+        raise Inconclusive("the unrolling itself is inconsistent")
+    d = sub.dimacs(include_names=True)
+    names, sel_var = {}, {}
+    body = []
+    nv = nc = 0
+    for ln in d.split("\n"):
+        if ln.startswith("c "):
+            p = ln.split(" ", 2)
+            if len(p) == 3:
+                if p[2].startswith("qsel!"):
+                    sel_var[p[2]] = int(p[1])
+                elif want_names is None or want_names(p[2]):
+                    names[int(p[1])] = p[2]
+        elif ln.startswith("p cnf"):
+            h = ln.split()
+            nv, nc = int(h[2]), int(h[3])
+        elif ln.strip():
+            body.append(ln)
+    del d
+    cnf_s = time.time() - t0
+    ensure_dirs()
+    d_dir = os.path.join(WORK, "cnf")
+    os.makedirs(d_dir, exist_ok=True)
+    base_txt = "\n".join(body) + "\n"
+
+    def run(q):
+        name = q[0]
+        v = sel_var.get(sels[name])
+        st = {"cnf_s": round(cnf_s, 2), "vars": nv, "clauses": nc + 1, "solver": "kissat"}
+        if v is None:
+            # the selector was eliminated by preprocessing: decide this query on its own
+            return name, None
+        fd, path = tempfile.mkstemp(prefix="%s-%s-" % (tag, sels[name].replace("!", "")), suffix=".cnf", dir=d_dir)
+        with os.fdopen(fd, "w") as f:
+            f.write("p cnf %d %d\n" % (nv, nc + 1))
+            f.write(base_txt)
+            f.write("%d 0\n" % v)
+        t1 = time.time()
+        try:
+            p = subprocess.run(["kissat", "-q", "--time=%d" % max(1, int(timeout_s)), path], capture_output=True, text=True,
+                               timeout=timeout_s + 60)
+            out = p.stdout
+        except subprocess.TimeoutExpired:
+            out = ""
+        finally:
+            try:
+                os.unlink(path)
+            except OSError:
+                pass
+        st["sat_s"] = round(time.time() - t1, 2)
+        if "s UNSATISFIABLE" in out:
+            return name, ("unsat", set(), st)
+        if "s SATISFIABLE" in out:
+            true = set()
+            for ln in out.split("\n"):
+                if ln.startswith("v "):
+                    for tok in ln[2:].split():
+                        x = int(tok)
+                        if x > 0 and x in names:
+                            true.add(names[x])
+            return name, ("sat", true, st)
+        return name, ("unknown", set(), st)
+    res = {}
+    with ThreadPoolExecutor(max_workers=max(1, jobs)) as ex:
+        for name, r2 in ex.map(run, queries):
+            res[name] = r2
+    for name, f in queries:
+        if res[name] is None:
+            res[name] = decide(list(constraints) + [f], timeout_s, want_names, tag)
+    return res
